@@ -87,8 +87,9 @@ Proof.
   assert (Hb : Bytes (repeat 0 (n - length d) ++ d)).
   { apply Bytes_app. split; [apply Bytes_repeat; lia | apply (digits_lt 256); lia]. }
   assert (Hl : length (repeat 0 (n - length d) ++ d) = n) by (rewrite app_length, repeat_length; lia).
-  rewrite <- (be_bytes_unique n _ Hb Hl). f_equal.
-  rewrite be_value_zeros, <- value_be_value. unfold d. symmetry. apply value_digits. lia.
+  transitivity (be_bytes n (be_value (repeat 0 (n - length d) ++ d) 0)).
+  - symmetry. apply be_bytes_unique; assumption.
+  - f_equal. rewrite be_value_zeros, <- value_be_value. unfold d. apply value_digits. lia.
 Qed.
 
 (* the Go code pads only when the length is below 32 *)
@@ -122,7 +123,8 @@ Proof. reflexivity. Qed.
 
 Lemma out_of_range_false v : out_of_range v = false <-> 0 < v < secp_nN.
 Proof.
-  unfold out_of_range. destruct (N.leb_spec secp_nN v), (N.eqb_spec v 0); cbn; split; intros; try lia; try discriminate.
+  pose proof secp_n_pos as Hp.
+  unfold out_of_range. destruct (N.leb_spec secp_nN v), (N.eqb_spec v 0); cbn [orb]; split; intros H1; try lia; try discriminate; reflexivity.
 Qed.
 
 Lemma Bytes_firstn n l : Bytes l -> Bytes (firstn n l).
